@@ -1834,11 +1834,17 @@ class Inliner:
         if jumps(st.body):
             raise _NoInline("break / continue in the body of a loop over a generator helper")
         consumer, target = st.body, st.target
+        stored = {x.id for b in consumer for x in ast.walk(b) if isinstance(x, ast.Name) and isinstance(x.ctx, (ast.Store, ast.Del))}
 
         class Y(ast.NodeTransformer):
             def visit_Expr(self, node):
                 if isinstance(node.value, ast.Yield):
                     v = node.value.value if node.value.value is not None else ast.Constant(None)
+                    if isinstance(target, ast.Name) and isinstance(v, ast.Name) and target.id not in stored and v.id not in stored:
+                        # `for x in gen(): BODY` with `yield y`: BODY reads y directly - no copy, so what is known about y stays known
+                        if v.id == target.id:
+                            return _clone(consumer)
+                        return [_Subst({target.id: v}).visit(b) for b in _clone(consumer)]
                     return [ast.Assign(targets=[_clone(target)], value=v, lineno=st.lineno)] + _clone(consumer)
                 return node
 
